@@ -869,3 +869,602 @@ Qed.
 
 Theorem reachable_Inv keys sched : Inv (exec (init keys) sched).
 Proof. apply exec_Inv, init_Inv. Qed.
+
+(* ---------- what one [run] step can do, as a local update with its side facts ---------- *)
+(* progress measure: every effective step of a task strictly lowers its weight *)
+Definition wt (t : task) : nat :=
+  match t_pc t with
+  | PInit => 6 | PWaitMain1 => 5 | PWaitKey => 4
+  | PInCS => if is_pending (t_fut t) then 3 else 2
+  | PWaitMain2 _ => 1 | PDone _ => 0
+  end.
+
+Inductive shape (s : st) (i : nat) : st -> Prop :=
+| sh_same : (nT s <= i \/ ready (get s i) = false) -> shape s i s
+| sh_upd p' w lo ro :
+    i < nT s ->
+    (forall x, w = Some x -> x < nT s /\ key s x = key s i) ->
+    (forall x, w = Some x -> pcof s x = PWaitKey) ->
+    wt (mkTask (key s i) p' FPending false) < wt (get s i) ->
+    (* the queue of the key lock is FIFO: unchanged, one appended at the tail, or one removed *)
+    (ws_of lo = ws_of (L s (key s i)) \/ ws_of lo = ws_of (L s (key s i)) ++ [i]
+     \/ ws_of lo = rm1 i (ws_of (L s (key s i)))) ->
+    (* entering: either at once past cancelled waiters only, or from the head of the queue *)
+    (p' = PInCS ->
+       (pcof s i = PInit /\ all_cancelled (futs s) (ws_of (L s (key s i))) = true) \/
+       (pcof s i = PWaitKey /\ exists r, ws_of (L s (key s i)) = i :: r)) ->
+    (* a queued task either enters or was cancelled *)
+    (pcof s i = PWaitKey -> p' = PInCS \/ (p' = PDone true /\ resume_cancel (get s i) = true)) ->
+    (pcof s i = PInit -> t_mc (get s i) = false -> p' = PInCS \/ p' = PWaitKey) ->
+    (pcof s i = PInit -> L s (key s i) = None -> t_mc (get s i) = false -> p' = PInCS) ->
+    shape s i (upd_state s i p' w lo ro).
+
+Ltac side Hp :=
+  try solve [unfold wt; rewrite Hp; cbn; lia];
+  try solve [unfold pcof; rewrite ?Hp; intros;
+             first [congruence | left; reflexivity | right; reflexivity | left; congruence | right; congruence]].
+
+Lemma run_shape s i : Inv s -> shape s i (run s i).
+Proof.
+  intro HI. unfold run.
+  destruct (Nat.ltb_spec i (length (s_tasks s))) as [Hi|]; cbn [negb orb]; [|constructor; left; auto].
+  destruct (ready (get s i)) eqn:Hr; cbn [negb]; [|constructor; right; auto].
+  pose proof (I_keys _ HI (key s i)) as HK.
+  pose proof (I_main _ HI) as Hm.
+  change (t_key (get s i)) with (key s i).
+  destruct (t_pc (get s i)) eqn:Hp.
+  - (* PInit *)
+    destruct (t_mc (get s i)) eqn:Hmc.
+    + rewrite set_pc_upd_state. constructor; auto; try discriminate; side Hp; intros; congruence.
+    + rewrite register_free by auto.
+      unfold reg_pure. change (t_key (get s i)) with (key s i).
+      change (alookup (key s i) (s_locks s)) with (L s (key s i)).
+      destruct (L s (key s i)) as [l|] eqn:Hl.
+      * pose proof (K_refs _ _ HK) as K7. rewrite Hl in K7.
+        change (alookup (key s i) (s_refs s)) with (R s (key s i)). rewrite K7.
+        match goal with |- context [acquire_key (set_refs s ?X) i] =>
+          replace (set_refs s X) with (set_refs (set_locks s (s_locks s)) X) by (rewrite set_locks_same; reflexivity) end.
+        rewrite (acquire_key_eq s i _ _ l) by exact Hl.
+        destruct (lk_can_take (futs s) l) eqn:Hc.
+        -- apply andb_true_iff in Hc. destruct Hc as [Hu Hac].
+           change (mk s i PInCS None (aset (key s i) (lk_take l) (s_locks s)) (aset (key s i) (refs_of l + 1)%Z (s_refs s)))
+             with (upd_state s i PInCS None (Some (lk_take l)) (Some (refs_of l + 1)%Z)).
+           constructor; auto; try discriminate; side Hp; rewrite ?Hl; cbn [ws_of lk_take l_waiters]; auto.
+        -- change (mk s i PWaitKey None (aset (key s i) (lk_enqueue l i) (s_locks s)) (aset (key s i) (refs_of l + 1)%Z (s_refs s)))
+             with (upd_state s i PWaitKey None (Some (lk_enqueue l i)) (Some (refs_of l + 1)%Z)).
+           constructor; auto; try discriminate; side Hp; rewrite ?Hl; cbn [ws_of lk_enqueue l_waiters]; auto.
+      * cbn [s_refs set_refs set_locks]. rewrite alookup_aset_eq.
+        change (set_refs (set_refs (set_locks s ?a) ?b) ?c) with (set_refs (set_locks s a) c).
+        rewrite (acquire_key_eq s i _ _ lock_new) by apply alookup_aset_eq.
+        cbn [lk_can_take lock_new l_locked l_waiters negb all_cancelled forallb andb].
+        rewrite !aset_aset. cbn [Z.add].
+        change (mk s i PInCS None (aset (key s i) (lk_take lock_new) (s_locks s)) (aset (key s i) 1%Z (s_refs s)))
+          with (upd_state s i PInCS None (Some (lk_take lock_new)) (Some 1%Z)).
+        constructor; auto; try discriminate; side Hp; rewrite ?Hl; cbn [ws_of lk_take lock_new l_waiters]; auto.
+  - exfalso. destruct (I_pcs _ HI i) as [H1 _]. auto.
+  - (* PWaitKey *)
+    change (alookup (key s i) (s_locks s)) with (L s (key s i)).
+    destruct (K_wait _ _ HK i Hi eq_refl Hp) as (l & Hl & Hin). rewrite Hl.
+    destruct (resume_cancel (get s i)) eqn:Hrc.
+    + unfold lk_resume_cancel.
+      rewrite deregister_free by (rewrite main_wake; exact Hm).
+      pose proof (K_refs _ _ HK) as K7. rewrite Hl in K7.
+      rewrite (dereg_pure_eq s i true _ _ (refs_of l)) by exact K7.
+      assert (Hw0 : forall x, (if l_locked l then None else lk_wake_first (futs s) (rm1 i (l_waiters l))) = Some x ->
+                   x < nT s /\ key s x = key s i /\ pcof s x = PWaitKey).
+      { intros x Hx. destruct (l_locked l); [discriminate|]. apply wake_first_some in Hx.
+        destruct Hx as (r & Hx & _). assert (Hxi : In x (rm1 i (l_waiters l))) by (rewrite Hx; cbn; auto).
+        apply rm1_In in Hxi. apply (K_waiters _ _ HK l x Hl Hxi). }
+      assert (Hw : forall x, (if l_locked l then None else lk_wake_first (futs s) (rm1 i (l_waiters l))) = Some x ->
+                   x < nT s /\ key s x = key s i) by (intros x Hx; destruct (Hw0 x Hx) as (a & b & c); auto).
+      assert (Hw' : forall x, (if l_locked l then None else lk_wake_first (futs s) (rm1 i (l_waiters l))) = Some x ->
+                   pcof s x = PWaitKey) by (intros x Hx; destruct (Hw0 x Hx) as (a & b & c); auto).
+      assert (Hwt : forall e, wt (mkTask (key s i) (PDone e) FPending false) < wt (get s i)) by (intro e; unfold wt; rewrite Hp; cbn; lia).
+      destruct (refs_of l - 1 =? 0)%Z eqn:Hz.
+      * rewrite adel_aset. apply Z.eqb_eq in Hz.
+        assert (Hws : rm1 i (l_waiters l) = []).
+        { pose proof (rm1_length i _ Hin). unfold refs_of in Hz.
+          destruct (rm1 i (l_waiters l)); auto. cbn in H. destruct (l_locked l); lia. }
+        match goal with |- shape _ _ (mk s i ?p ?w _ _) =>
+          change (shape s i (upd_state s i p w None None)) end.
+        constructor; auto; try discriminate; side Hp; rewrite ?Hl; cbn [ws_of]; auto.
+      * match goal with |- shape _ _ (mk s i ?p ?w (aset _ ?l' _) (aset _ ?r' _)) =>
+          change (shape s i (upd_state s i p w (Some l') (Some r'))) end.
+        constructor; auto; try discriminate; side Hp; rewrite ?Hl; cbn [ws_of l_waiters]; auto.
+    + replace (set_pc (set_locks s (aset (key s i) (lk_resume_ok l i) (s_locks s))) i PInCS)
+        with (upd_state s i PInCS None (Some (lk_resume_ok l i)) (R s (key s i))).
+      2:{ unfold upd_state, R. rewrite put_same. destruct s; reflexivity. }
+      assert (Hf : futof s i = FResult).
+      { unfold resume_cancel in Hrc. unfold ready in Hr. rewrite Hp in Hr.
+        unfold futof. destruct (t_fut (get s i)); cbn in *; congruence. }
+      destruct (K_result _ _ HK l i Hl Hin Hf) as (Hu & r & Hr').
+      constructor; auto; try discriminate; side Hp; rewrite ?Hl; cbn [ws_of lk_resume_ok l_waiters]; auto.
+      intros _. right. unfold pcof. rewrite Hp. split; eauto.
+  - (* PInCS *)
+    change (alookup (key s i) (s_locks s)) with (L s (key s i)).
+    destruct (K_cs _ _ HK i Hi eq_refl Hp) as (l & Hl & Hlk). rewrite Hl, Hlk.
+    unfold lk_release.
+    rewrite deregister_free by (rewrite main_wake; exact Hm).
+    pose proof (K_refs _ _ HK) as K7. rewrite Hl in K7.
+    rewrite (dereg_pure_eq s i _ _ _ (refs_of l)) by exact K7.
+    assert (Hw0 : forall x, lk_wake_first (futs s) (l_waiters l) = Some x -> x < nT s /\ key s x = key s i /\ pcof s x = PWaitKey).
+    { intros x Hx. apply wake_first_some in Hx.
+      destruct Hx as (r & Hx & _). assert (Hxi : In x (l_waiters l)) by (rewrite Hx; cbn; auto).
+      apply (K_waiters _ _ HK l x Hl Hxi). }
+    assert (Hw : forall x, lk_wake_first (futs s) (l_waiters l) = Some x -> x < nT s /\ key s x = key s i)
+      by (intros x Hx; destruct (Hw0 x Hx) as (a & b & c); auto).
+    assert (Hw' : forall x, lk_wake_first (futs s) (l_waiters l) = Some x -> pcof s x = PWaitKey)
+      by (intros x Hx; destruct (Hw0 x Hx) as (a & b & c); auto).
+    assert (Hwt : forall e, wt (mkTask (key s i) (PDone e) FPending false) < wt (get s i)).
+    { intro e. unfold wt. rewrite Hp. unfold ready in Hr. rewrite Hp in Hr. cbn.
+      destruct (is_pending (t_fut (get s i))); [discriminate|lia]. }
+    destruct (refs_of l - 1 =? 0)%Z eqn:Hz.
+    + rewrite adel_aset. apply Z.eqb_eq in Hz.
+      assert (Hws : l_waiters l = []).
+      { unfold refs_of in Hz. rewrite Hlk in Hz. destruct (l_waiters l); auto. cbn [length] in Hz. lia. }
+      match goal with |- shape _ _ (mk s i ?p ?w _ _) =>
+        change (shape s i (upd_state s i p w None None)) end.
+      constructor; auto; try discriminate; side Hp; rewrite ?Hl; cbn [ws_of]; auto;
+        unfold pcof; rewrite Hp; discriminate.
+    + match goal with |- shape _ _ (mk s i ?p ?w (aset _ ?l' _) (aset _ ?r' _)) =>
+        change (shape s i (upd_state s i p w (Some l') (Some r'))) end.
+      constructor; auto; try discriminate; side Hp; rewrite ?Hl; cbn [ws_of l_waiters]; auto;
+        unfold pcof; rewrite Hp; discriminate.
+  - exfalso. destruct (I_pcs _ HI i) as [_ H2]. eapply H2; eauto.
+  - unfold ready in Hr. rewrite Hp in Hr. discriminate.
+Qed.
+
+(* =====================  the theorems  ===================== *)
+From Coq Require Import Permutation.
+
+Definition reach (keys : list nat) (sched : list choice) : st := exec (init keys) sched.
+
+Lemma in_cs_pc s i : in_cs s i = true <-> i < nT s /\ pcof s i = PInCS.
+Proof.
+  unfold in_cs, pcof, nT. rewrite andb_true_iff, Nat.ltb_lt.
+  destruct (t_pc (get s i)); intuition congruence.
+Qed.
+
+(* 1. mutual exclusion per key *)
+Lemma mutual_exclusion keys sched i j :
+  let s := reach keys sched in
+  in_cs s i = true -> in_cs s j = true -> t_key (get s i) = t_key (get s j) -> i = j.
+Proof.
+  intros s Hi Hj Hk. apply in_cs_pc in Hi, Hj. destruct Hi, Hj.
+  pose proof (reachable_Inv keys sched) as HI.
+  eapply (K_mutex _ _ (I_keys _ HI (key s i))); eauto.
+Qed.
+
+(* 4. no KeyError/RuntimeError inside KeyedLock; the main lock is free at every scheduling point and
+   nobody ever waits for it (so `async with self._get_main_lock()` never suspends) *)
+Lemma no_internal_error keys sched :
+  let s := reach keys sched in
+  s_err s = false /\ s_main s = lock_new /\
+  forall i, t_pc (get s i) <> PWaitMain1 /\ forall e, t_pc (get s i) <> PWaitMain2 e.
+Proof. intro s. destruct (reachable_Inv keys sched) as [a b c d]. auto. Qed.
+
+(* 2. refs[k] = number of tasks between register and deregister; _locks has k iff that is > 0 *)
+Lemma registered_ids_In s k j :
+  In j (registered_ids s k) <-> j < nT s /\ key s j = k /\ registered (get s j) = true.
+Proof.
+  unfold registered_ids. rewrite filter_In, in_seq, andb_true_iff, Nat.eqb_eq. unfold nT, key. intuition lia.
+Qed.
+
+Lemma registered_pc s j : Inv s -> (registered (get s j) = true <-> pcof s j = PWaitKey \/ pcof s j = PInCS).
+Proof.
+  intro HI. destruct (I_pcs _ HI j) as [_ H2]. unfold registered, pcof in *.
+  destruct (t_pc (get s j)) eqn:E; intuition (try congruence); exfalso; eapply H2; eauto.
+Qed.
+
+Lemma refs_count_Inv s k : Inv s ->
+  match L s k with
+  | None => registered_ids s k = [] /\ R s k = None
+  | Some l => R s k = Some (Z.of_nat (length (registered_ids s k))) /\ registered_ids s k <> []
+  end.
+Proof.
+  intro HI. pose proof (I_keys _ HI k) as [K1 K2 K3 K4 K5 K6 K7 K8 K9 K10].
+  destruct (L s k) as [l|] eqn:Hl.
+  - assert (Hh : exists hs, (l_locked l = true -> exists h, hs = [h] /\ h < nT s /\ key s h = k /\ pcof s h = PInCS)
+                        /\ (l_locked l = false -> hs = [])).
+    { destruct (l_locked l) eqn:Hlk.
+      - destruct (K6 l eq_refl Hlk) as (h & a & b & c). exists [h]. split; [eauto|discriminate].
+      - exists []. split; [discriminate|auto]. }
+    destruct Hh as (hs & Hh1 & Hh0).
+    assert (P : Permutation (registered_ids s k) (hs ++ l_waiters l)).
+    { apply NoDup_Permutation.
+      - unfold registered_ids. apply NoDup_filter, seq_NoDup.
+      - destruct (l_locked l) eqn:Hlk.
+        + destruct (Hh1 eq_refl) as (h & -> & a & b & c). cbn. constructor; eauto.
+          intro Hin. destruct (K2 l h eq_refl Hin) as (_ & _ & Hp). congruence.
+        + rewrite (Hh0 eq_refl). cbn. eauto.
+      - intro j. rewrite registered_ids_In, in_app_iff. split.
+        + intros (Hj & Hk & Hr). apply registered_pc in Hr; auto. destruct Hr as [Hp|Hp].
+          * right. destruct (K1 j Hj Hk Hp) as (l0 & [= <-] & Hin). auto.
+          * left. destruct (K4 j Hj Hk Hp) as (l0 & [= <-] & Hlk).
+            destruct (Hh1 Hlk) as (h & -> & a & b & c). left. eapply K5; eauto.
+        + intros [Hin|Hin].
+          * destruct (l_locked l) eqn:Hlk.
+            -- destruct (Hh1 eq_refl) as (h & -> & a & b & c). destruct Hin as [<-|[]].
+               repeat split; auto. apply registered_pc; auto.
+            -- rewrite (Hh0 eq_refl) in Hin. destruct Hin.
+          * destruct (K2 l j eq_refl Hin) as (a & b & c). repeat split; auto. apply registered_pc; auto. }
+    pose proof (Permutation_length P) as Hlen. rewrite app_length in Hlen.
+    split.
+    + rewrite K7. f_equal. unfold refs_of. rewrite Hlen.
+      destruct (l_locked l) eqn:Hlk.
+      * destruct (Hh1 eq_refl) as (h & -> & _). cbn [length]. lia.
+      * rewrite (Hh0 eq_refl). cbn [length]. lia.
+    + intro E. rewrite E in Hlen. cbn in Hlen.
+      destruct (K8 l eq_refl) as [Hlk|Hw].
+      * destruct (Hh1 Hlk) as (h & -> & _). cbn in Hlen. lia.
+      * destruct (l_waiters l); [congruence|]. cbn in Hlen. lia.
+  - split; auto.
+    destruct (registered_ids s k) as [|j r] eqn:E; auto. exfalso.
+    assert (Hin : In j (registered_ids s k)) by (rewrite E; cbn; auto).
+    apply registered_ids_In in Hin. destruct Hin as (Hj & Hk & Hr).
+    apply registered_pc in Hr; auto. destruct Hr as [Hp|Hp].
+    + destruct (K1 j Hj Hk Hp) as (l0 & Hl0 & _). discriminate.
+    + destruct (K4 j Hj Hk Hp) as (l0 & Hl0 & _). discriminate.
+Qed.
+
+Lemma refs_count keys sched k :
+  let s := reach keys sched in
+  let c := length (registered_ids s k) in
+  alookup k (s_refs s) = (if c =? 0 then None else Some (Z.of_nat c)) /\
+  (alookup k (s_locks s) = None <-> c = 0).
+Proof.
+  intros s c. pose proof (refs_count_Inv s k (reachable_Inv keys sched)) as H.
+  change (alookup k (s_locks s)) with (L s k). change (alookup k (s_refs s)) with (R s k).
+  subst c. destruct (L s k) as [l|].
+  - destruct H as [Hr Hne]. destruct (registered_ids s k) eqn:E; [congruence|]. cbn [length Nat.eqb].
+    split; auto. split; [discriminate|]. cbn; lia.
+  - destruct H as [-> Hr]. cbn. split; auto. tauto.
+Qed.
+
+(* 3. once all holders and waiters are gone (finished or cancelled) no lock state remains *)
+Lemma all_done_spec s : all_done s = true -> forall j, done (get s j) = true.
+Proof.
+  unfold all_done. rewrite forallb_forall. intros H j. unfold get.
+  destruct (Nat.ltb_spec j (length (s_tasks s))).
+  - apply H. apply nth_In; auto.
+  - rewrite nth_overflow; auto.
+Qed.
+
+Lemma cleanup keys sched :
+  let s := reach keys sched in
+  all_done s = true -> s_locks s = [] /\ s_refs s = [].
+Proof.
+  intros s Hd. pose proof (reachable_Inv keys sched) as HI. fold (reach keys sched) in HI. fold s in HI.
+  pose proof (all_done_spec s Hd) as Hdone.
+  assert (E : forall k, registered_ids s k = []).
+  { intro k. destruct (registered_ids s k) as [|j r] eqn:E; auto. exfalso.
+    assert (Hin : In j (registered_ids s k)) by (rewrite E; cbn; auto).
+    apply registered_ids_In in Hin. destruct Hin as (_ & _ & Hr). specialize (Hdone j).
+    unfold registered, done in *. destruct (t_pc (get s j)); discriminate. }
+  split; apply alookup_none_all; intro k; pose proof (refs_count_Inv s k HI) as H;
+    fold (L s k); fold (R s k); destruct (L s k); destruct H; auto; congruence.
+Qed.
+
+(* per key: as soon as nobody is registered for k, neither dict mentions k *)
+Lemma cleanup_key keys sched k :
+  let s := reach keys sched in
+  registered_ids s k = [] -> alookup k (s_locks s) = None /\ alookup k (s_refs s) = None.
+Proof.
+  intros s E. pose proof (refs_count_Inv s k (reachable_Inv keys sched)) as H.
+  fold (reach keys sched) in H. fold s in H. fold (L s k). fold (R s k).
+  destruct (L s k); destruct H; auto; congruence.
+Qed.
+
+(* 5. independence across keys *)
+Definition task_of (c : choice) : nat := match c with CRun i | COpen i | CCancel i => i end.
+
+Lemma agree_refl s k : agree s s k.
+Proof. constructor; auto. Qed.
+
+Lemma set_task_agree s i t' k : t_key t' = key s i -> k <> key s i -> agree s (set_task s i t') k.
+Proof.
+  intros Hk Hne. constructor; auto.
+  - apply nT_set_task.
+  - intro j. unfold key. destruct (Nat.eq_dec i j) as [<-|Hn]; [|rewrite get_set_task_neq; auto].
+    destruct (Nat.ltb_spec i (nT s)); [rewrite get_set_task_eq; auto|].
+    rewrite !get_oob; auto. rewrite nT_set_task; auto.
+  - intros j Hj. destruct (Nat.eq_dec i j) as [<-|Hn]; [congruence|]. apply get_set_task_neq; auto.
+Qed.
+
+Lemma step_agree s c k : Inv s -> k <> key s (task_of c) -> agree s (step s c) k.
+Proof.
+  intros HI Hne. destruct c as [i|i|i]; cbn [step task_of] in *.
+  - destruct (run_shape s i HI) as [|p' w lo ro Hi Hw _ _ _ _ _ _ _]; [apply agree_refl|].
+    apply upd_state_agree; auto. intros x Hx. apply Hw; auto.
+  - unfold open_gate. destruct (t_pc (get s i)); try apply agree_refl.
+    destruct (is_pending (t_fut (get s i)) && (i <? length (s_tasks s))); [|apply agree_refl].
+    apply set_task_agree; auto.
+  - unfold cancel. destruct (negb (i <? length (s_tasks s))); [apply agree_refl|].
+    destruct (t_pc (get s i)); try apply agree_refl; try (destruct (is_pending (t_fut (get s i))));
+      apply set_task_agree; auto.
+Qed.
+
+Lemma independence_frame keys sched c k :
+  let s := reach keys sched in
+  k <> t_key (get s (task_of c)) ->
+  let s' := step s c in
+  alookup k (s_locks s') = alookup k (s_locks s) /\ alookup k (s_refs s') = alookup k (s_refs s) /\
+  forall j, t_key (get s j) = k -> get s' j = get s j.
+Proof.
+  intros s Hne s'. destruct (step_agree s c k (reachable_Inv keys sched) Hne) as [a b c' d e]. auto.
+Qed.
+
+Lemma independence_enter keys sched i :
+  let s := reach keys sched in
+  i < length (s_tasks s) -> t_pc (get s i) = PInit -> t_mc (get s i) = false ->
+  registered_ids s (t_key (get s i)) = [] ->
+  in_cs (step s (CRun i)) i = true.
+Proof.
+  intros s Hi Hp Hmc Hreg. pose proof (reachable_Inv keys sched) as HI. fold (reach keys sched) in HI. fold s in HI.
+  assert (Hl : L s (key s i) = None).
+  { pose proof (refs_count_Inv s (key s i) HI) as H. destruct (L s (key s i)); auto. destruct H. contradiction. }
+  cbn [step]. destruct (run_shape s i HI) as [[Hge|Hr]|p' w lo ro Hi' Hw _ _ _ _ _ _ Hnew].
+  - unfold nT in Hge. lia.
+  - unfold ready in Hr. rewrite Hp in Hr. discriminate.
+  - apply in_cs_pc. rewrite nT_upd_state, pcof_upd_state, Nat.eqb_refl by auto. split; auto.
+Qed.
+
+(* 6. progress *)
+Lemma deadlock_free_Inv s i :
+  Inv s -> i < nT s -> done (get s i) = false -> exists c, enabled s c = true.
+Proof.
+  intros HI Hi Hd. pose proof (I_keys _ HI (key s i)) as [K1 K2 K3 K4 K5 K6 K7 K8 K9 K10].
+  assert (Hrun : forall j, j < nT s -> ready (get s j) = true -> exists c, enabled s c = true).
+  { intros j Hj Hr. exists (CRun j). cbn. apply andb_true_iff. split; auto. apply Nat.ltb_lt; auto. }
+  assert (Hcs : forall j, j < nT s -> pcof s j = PInCS -> exists c, enabled s c = true).
+  { intros j Hj Hp. destruct (is_pending (t_fut (get s j))) eqn:Hf.
+    - exists (COpen j). cbn. unfold pcof in Hp. rewrite Hp, Hf. apply andb_true_iff. split; auto. apply Nat.ltb_lt; auto.
+    - apply (Hrun j Hj). unfold ready. unfold pcof in Hp. rewrite Hp, Hf. reflexivity. }
+  destruct (t_pc (get s i)) eqn:Hp.
+  - apply (Hrun i Hi). unfold ready. rewrite Hp. reflexivity.
+  - exfalso. destruct (I_pcs _ HI i) as [H1 _]. auto.
+  - destruct (K1 i Hi eq_refl Hp) as (l & Hl & Hin).
+    destruct (l_locked l) eqn:Hlk.
+    + destruct (K6 l Hl Hlk) as (h & Hh & _ & Hph). eauto.
+    + destruct (K10 l Hl Hlk) as (j & Hjin & Hf). destruct (K2 l j Hl Hjin) as (Hj & _ & Hpj).
+      apply (Hrun j Hj). unfold ready. unfold pcof in Hpj. rewrite Hpj. unfold futof in Hf.
+      destruct (t_fut (get s j)); auto; congruence.
+  - eauto.
+  - exfalso. destruct (I_pcs _ HI i) as [_ H2]. eapply H2; eauto.
+  - unfold done in Hd. rewrite Hp in Hd. discriminate.
+Qed.
+
+Lemma deadlock_free keys sched :
+  let s := reach keys sched in
+  all_done s = false -> exists c, enabled s c = true.
+Proof.
+  intros s Hd. unfold all_done in Hd.
+  assert (exists t, In t (s_tasks s) /\ done t = false) as (t & Hin & Ht).
+  { induction (s_tasks s) as [|t r IH]; cbn in Hd; [discriminate|].
+    destruct (done t) eqn:E; cbn in Hd.
+    - destruct (IH Hd) as (t' & a & b). exists t'; cbn; auto.
+    - exists t; cbn; auto. }
+  destruct (In_nth _ _ dflt Hin) as (i & Hi & Hnth).
+  apply (deadlock_free_Inv s i); auto. apply reachable_Inv. unfold get. rewrite Hnth. auto.
+Qed.
+
+(* a queued task that nobody cancels stays queued until it enters *)
+Definition waiting (s : st) (i : nat) : Prop :=
+  i < nT s /\ pcof s i = PWaitKey /\ resume_cancel (get s i) = false.
+
+Lemma waiting_step s c i :
+  Inv s -> waiting s i -> c <> CCancel i -> waiting (step s c) i \/ in_cs (step s c) i = true.
+Proof.
+  intros HI (Hi & Hp & Hrc) Hc.
+  assert (Hother : forall j p' w lo ro, j <> i -> j < nT s ->
+            waiting (upd_state s j p' w lo ro) i).
+  { intros j p' w lo ro Hne Hj. unfold waiting. rewrite nT_upd_state, pcof_upd_state by auto.
+    destruct (Nat.eqb_spec i j); [congruence|]. repeat split; auto.
+    rewrite get_upd_state by auto. destruct (Nat.eqb_spec i j); [congruence|].
+    rewrite get_wake. destruct w as [x|]; auto.
+    destruct ((i =? x) && (x <? nT s)); auto.
+    unfold resume_cancel in *. cbn. apply orb_false_iff in Hrc. destruct Hrc as [_ ->]. reflexivity. }
+  destruct c as [j|j|j]; cbn [step].
+  - destruct (run_shape s j HI) as [|p' w lo ro Hj Hw _ _ _ _ Hq _ _]; [left; split; auto|].
+    destruct (Nat.eq_dec j i) as [->|Hne]; [|left; apply Hother; auto].
+    right. apply in_cs_pc. rewrite nT_upd_state, pcof_upd_state, Nat.eqb_refl by auto.
+    split; auto. destruct (Hq Hp) as [|[_ Hx]]; auto. congruence.
+  - left. unfold open_gate. destruct (Nat.eq_dec j i) as [->|Hne].
+    + unfold pcof in Hp. rewrite Hp. split; auto.
+    + destruct (t_pc (get s j)); try (split; auto; fail).
+      destruct (is_pending (t_fut (get s j)) && (j <? length (s_tasks s))); [|split; auto].
+      unfold waiting, pcof. rewrite nT_set_task, get_set_task_neq by auto. auto.
+  - left. assert (Hne : j <> i) by congruence. unfold cancel.
+    destruct (negb (j <? length (s_tasks s))); [split; auto|].
+    destruct (t_pc (get s j)); try (split; auto; fail); try destruct (is_pending (t_fut (get s j)));
+      unfold waiting, pcof; rewrite nT_set_task, get_set_task_neq by auto; auto.
+Qed.
+
+Lemma waiter_enters_Inv sched : forall s i,
+  Inv s -> waiting s i -> (forall c, In c sched -> c <> CCancel i) ->
+  waiting (exec s sched) i \/
+  exists p q, sched = p ++ q /\ in_cs (exec s p) i = true.
+Proof.
+  induction sched as [|c r IH]; intros s i HI Hw Hnc; [left; auto|].
+  cbn [exec fold_left]. destruct (waiting_step s c i HI Hw) as [Hw'|Hin].
+  - apply Hnc; cbn; auto.
+  - destruct (IH (step s c) i (step_Inv _ _ HI) Hw') as [H|(p & q & -> & H)].
+    + intros c' Hc'. apply Hnc; cbn; auto.
+    + left; auto.
+    + right. exists (c :: p), q. split; auto.
+  - right. exists [c], r. split; auto.
+Qed.
+
+Lemma pcof_set_task_same s i t' j : t_pc t' = pcof s i -> pcof (set_task s i t') j = pcof s j.
+Proof.
+  intro H. unfold pcof in *. destruct (Nat.eq_dec i j) as [<-|Hne]; [|rewrite get_set_task_neq; auto].
+  destruct (Nat.ltb_spec i (nT s)); [rewrite get_set_task_eq; auto|].
+  rewrite !get_oob; auto. rewrite nT_set_task; auto.
+Qed.
+
+Lemma pcof_open s i j : pcof (open_gate s i) j = pcof s j.
+Proof.
+  unfold open_gate. destruct (t_pc (get s i)) eqn:E; auto.
+  destruct (is_pending (t_fut (get s i)) && (i <? length (s_tasks s))); auto.
+  apply pcof_set_task_same. unfold pcof. rewrite E. reflexivity.
+Qed.
+
+Lemma pcof_cancel s i j : pcof (cancel s i) j = pcof s j.
+Proof.
+  unfold cancel. destruct (negb (i <? length (s_tasks s))); auto.
+  destruct (t_pc (get s i)) eqn:E; auto; try destruct (is_pending (t_fut (get s i)));
+    apply pcof_set_task_same; unfold pcof; rewrite E; reflexivity.
+Qed.
+
+(* 7. FIFO: a queued task enters only from the head of the queue; the queue only grows at the tail
+   and shrinks by removal; a newcomer passes queued tasks only if all of them are cancelled *)
+Lemma fifo_enter_Inv s c j :
+  Inv s -> j < nT s -> in_cs s j = false -> in_cs (step s c) j = true ->
+  c = CRun j /\
+  ((pcof s j = PWaitKey /\ exists l r, L s (key s j) = Some l /\ l_waiters l = j :: r) \/
+   (pcof s j = PInit /\ forall x, In x (ws_of (L s (key s j))) -> futof s x = FCancelled)).
+Proof.
+  intros HI Hj Hout Hin. apply in_cs_pc in Hin. destruct Hin as [_ Hin].
+  assert (Hnot : pcof s j <> PInCS).
+  { intro E. assert (in_cs s j = true) by (apply in_cs_pc; auto). congruence. }
+  destruct c as [i|i|i]; cbn [step] in Hin.
+  - destruct (run_shape s i HI) as [|p' w lo ro Hi Hw _ _ _ He _ _ _]; [congruence|].
+    rewrite pcof_upd_state in Hin by auto. destruct (Nat.eqb_spec j i) as [->|]; [|congruence].
+    split; auto. subst p'. destruct (He eq_refl) as [[Hp Hac]|[Hp [r Hr]]].
+    + right. split; auto. intros x Hx. unfold all_cancelled in Hac. rewrite forallb_forall in Hac.
+      specialize (Hac x Hx). unfold futs in Hac. unfold futof. destruct (t_fut (get s x)); auto; discriminate.
+    + left. split; auto. destruct (L s (key s i)) as [l|]; [|discriminate]. eauto.
+  - rewrite pcof_open in Hin. contradiction.
+  - rewrite pcof_cancel in Hin. contradiction.
+Qed.
+
+Lemma queue_step_Inv s c k :
+  Inv s ->
+  let ws := ws_of (L s k) in let ws' := ws_of (L (step s c) k) in
+  ws' = ws \/ ws' = ws ++ [task_of c] \/ ws' = rm1 (task_of c) ws.
+Proof.
+  intros HI ws ws'. subst ws ws'.
+  destruct (Nat.eq_dec k (key s (task_of c))) as [->|Hne].
+  2:{ left. rewrite (A_L _ _ _ (step_agree s c k HI Hne)). reflexivity. }
+  destruct c as [i|i|i]; cbn [step task_of].
+  - destruct (run_shape s i HI) as [|p' w lo ro Hi Hw _ _ Hq _ _ _ _]; auto.
+    rewrite L_upd_state. exact Hq.
+  - left. unfold open_gate. destruct (t_pc (get s i)); auto.
+    destruct (is_pending (t_fut (get s i)) && (i <? length (s_tasks s))); auto.
+  - left. unfold cancel. destruct (negb (i <? length (s_tasks s))); auto.
+    destruct (t_pc (get s i)); auto; destruct (is_pending (t_fut (get s i))); auto.
+Qed.
+
+(* ---------- termination measure ---------- *)
+Definition mu (s : st) : nat := list_sum (map wt (s_tasks s)).
+
+Lemma sum_upd i x l : i < length l ->
+  list_sum (map wt (upd i x l)) + wt (nth i l dflt) = list_sum (map wt l) + wt x.
+Proof.
+  revert i; induction l as [|y l IH]; intros [|i] H; cbn in *; try lia.
+  specialize (IH i ltac:(lia)). unfold list_sum in IH. lia.
+Qed.
+
+Lemma mu_set_task s i t' : i < nT s -> mu (set_task s i t') + wt (get s i) = mu s + wt t'.
+Proof. intro H. unfold mu, set_task, get; cbn. apply sum_upd; auto. Qed.
+
+Lemma upd_oob {A} i (x : A) l : length l <= i -> upd i x l = l.
+Proof. revert i; induction l as [|y l IH]; intros [|i] H; cbn in *; auto; try lia. f_equal. apply IH. lia. Qed.
+
+Lemma mu_wake s w : (forall x, w = Some x -> pcof s x = PWaitKey) -> mu (wake s w) = mu s.
+Proof.
+  intro H. destruct w as [x|]; auto. specialize (H x eq_refl). unfold wake.
+  destruct (Nat.ltb_spec x (nT s)) as [Hx|Hx].
+  - pose proof (mu_set_task s x (mkTask (t_key (get s x)) (t_pc (get s x)) FResult (t_mc (get s x))) Hx) as E.
+    unfold wt in E. cbn [t_pc t_fut] in E. unfold pcof in H. rewrite H in E. rewrite H. lia.
+  - unfold mu, set_task; cbn. rewrite upd_oob; auto.
+Qed.
+
+Lemma wt_wake s w i : (forall x, w = Some x -> pcof s x = PWaitKey) -> wt (get (wake s w) i) = wt (get s i).
+Proof.
+  intro H. rewrite get_wake. destruct w as [x|]; auto. specialize (H x eq_refl).
+  destruct (Nat.eqb_spec i x); cbn [andb]; auto. subst. destruct (x <? nT s); auto.
+  unfold wt; cbn [t_pc t_fut]. unfold pcof in *. rewrite H. reflexivity.
+Qed.
+
+Lemma mu_upd_state s i p' w lo ro :
+  i < nT s -> (forall x, w = Some x -> pcof s x = PWaitKey) ->
+  mu (upd_state s i p' w lo ro) + wt (get s i) = mu s + wt (mkTask (key s i) p' FPending false).
+Proof.
+  intros Hi Hw. unfold upd_state, set_refs, set_locks, set_pc.
+  change (mu (mkSt ?a ?b ?c ?d ?e)) with (list_sum (map wt a)). cbn [s_tasks set_task].
+  pose proof (sum_upd i (mkTask (t_key (get (wake s w) i)) p' FPending false) (s_tasks (wake s w))) as E.
+  fold (nT (wake s w)) in E. rewrite nT_wake in E. specialize (E Hi).
+  fold (get (wake s w) i) in E. rewrite wt_wake in E by auto.
+  fold (mu (wake s w)) in E. rewrite mu_wake in E by auto.
+  change (t_key (get (wake s w) i)) with (key (wake s w) i) in *. rewrite key_wake in *. exact E.
+Qed.
+
+Lemma effective_step_decreases s c : Inv s -> enabled s c = true -> mu (step s c) < mu s.
+Proof.
+  intros HI He. destruct c as [i|i|i]; cbn in He; [| |discriminate]; apply andb_true_iff in He; destruct He as [Hi He];
+    apply Nat.ltb_lt in Hi; cbn [step].
+  - destruct (run_shape s i HI) as [[Hge|Hr]|p' w lo ro Hi' Hw Hw' Hwt _ _ _ _ _].
+    + unfold nT in Hge; lia.
+    + congruence.
+    + pose proof (mu_upd_state s i p' w lo ro Hi' Hw'). lia.
+  - unfold open_gate. destruct (t_pc (get s i)) eqn:Hp; try discriminate.
+    rewrite He. apply Nat.ltb_lt in Hi. rewrite Hi. cbn [andb]. apply Nat.ltb_lt in Hi.
+    pose proof (mu_set_task s i (mkTask (t_key (get s i)) PInCS FResult (t_mc (get s i))) Hi) as E.
+    unfold wt in E. cbn [t_pc t_fut] in E. rewrite Hp, He in E. cbn [is_pending] in E. lia.
+Qed.
+
+
+Lemma idle_step s c : enabled s c = false -> (forall i, c <> CCancel i) -> step s c = s.
+Proof.
+  intros He Hc. destruct c as [i|i|i]; [| |exfalso; eapply Hc; eauto]; unfold enabled in He; cbn [step].
+  - unfold run. destruct (i <? length (s_tasks s)); cbn [negb orb andb] in *; auto. rewrite He. reflexivity.
+  - unfold open_gate. destruct (t_pc (get s i)); auto.
+    destruct (i <? length (s_tasks s)); cbn [andb] in *; [rewrite He; reflexivity|rewrite andb_false_r; reflexivity].
+Qed.
+
+Lemma cancel_no_increase s i : mu (cancel s i) <= mu s.
+Proof.
+  unfold cancel. destruct (Nat.ltb_spec i (length (s_tasks s))) as [Hi|]; cbn [negb]; auto.
+  assert (G : forall t', wt t' <= wt (get s i) -> mu (set_task s i t') <= mu s).
+  { intros t' H. pose proof (mu_set_task s i t' Hi). lia. }
+  destruct (t_pc (get s i)) eqn:Hp; auto; try destruct (is_pending (t_fut (get s i))) eqn:Hf;
+    apply G; unfold wt; cbn; rewrite Hp, ?Hf; cbn; lia.
+Qed.
+
+(* number of choices in a schedule that did something other than cancelling *)
+Fixpoint effective (s : st) (sched : list choice) : nat :=
+  match sched with
+  | [] => 0
+  | c :: r => (if enabled s c then 1 else 0) + effective (step s c) r
+  end.
+
+Lemma effective_bound sched : forall s, Inv s -> effective s sched + mu (exec s sched) <= mu s.
+Proof.
+  induction sched as [|c r IH]; intros s HI; cbn [effective exec fold_left]; [lia|].
+  specialize (IH (step s c) (step_Inv _ _ HI)). fold (exec (step s c) r) in *.
+  destruct (enabled s c) eqn:He.
+  - pose proof (effective_step_decreases s c HI He). lia.
+  - assert (mu (step s c) <= mu s).
+    { destruct c as [i|i|i]; [rewrite idle_step; auto; discriminate | rewrite idle_step; auto; discriminate |].
+      cbn [step]. apply cancel_no_increase. }
+    lia.
+Qed.
+
+Lemma mu_init keys : mu (init keys) = 6 * length keys.
+Proof. unfold mu, init; cbn. induction keys; cbn; auto. rewrite IHkeys. lia. Qed.
+
+Lemma bounded_progress keys sched : effective (init keys) sched <= 6 * length keys.
+Proof. pose proof (effective_bound sched (init keys) (init_Inv keys)). rewrite mu_init in H. lia. Qed.
+
+(* every waiter eventually enters: put together *)
+Lemma waiter_eventually_enters keys sched sched' i :
+  let s := reach keys sched in
+  waiting s i -> (forall c, In c sched' -> c <> CCancel i) ->
+  all_done (exec s sched') = true ->
+  exists p q, sched' = p ++ q /\ in_cs (exec s p) i = true.
+Proof.
+  intros s Hw Hnc Hd.
+  destruct (waiter_enters_Inv sched' s i (reachable_Inv keys sched) Hw Hnc) as [(Hi & Hp & _)|H]; auto.
+  exfalso. pose proof (all_done_spec _ Hd i) as Hdi. unfold done, pcof in *. rewrite Hp in Hdi. discriminate.
+Qed.
